@@ -121,7 +121,15 @@ class ANMLGrammar:
         self.timed_assignment_or_goal: List[ParseResults] = []
 
         # Base Expression elements
-        identifier = Word(alphas + "_", alphanums + "_")
+        # The operator keywords are not identifiers: otherwise the parenthesised condition
+        # of a conditional effect, e.g. `when (not (x == y))` or `when (exists(T y) {...})`,
+        # is consumed as the (optional) time interval in front of the condition.
+        identifier = Combine(
+            ~keyword(
+                TK_NOT, TK_AND, TK_OR, TK_XOR, TK_IMPLIES, TK_FORALL, TK_EXISTS, TK_WHEN
+            )
+            + Word(alphas + "_", alphanums + "_")
+        )
 
         # Negative numbers are defined with the unary minus operator
         integer = Word(nums)
